@@ -1,9 +1,11 @@
 package processors
 
+//the logger processor comes after the processors that rewrite tag values, so that a logger tag is
+//processed with its placeholders replaced like every other tag
 const (
-	PriorityOrderLoggerAware = 1 << (iota + 1)
-	PriorityOrderPropertyConfigQuoteAware
+	PriorityOrderPropertyConfigQuoteAware = 1 << (iota + 1)
 	PriorityOrderPropertyExpressionTagAware
+	PriorityOrderLoggerAware
 	PriorityOrderPopulateProperties
 )
 
